@@ -19,21 +19,92 @@ TOP = None  # deps of an empty container
 
 
 class AV:
-    __slots__ = ("deg", "aff", "deps", "shape", "items", "verts", "missing", "unit")
+    __slots__ = ("deg", "aff", "deps", "shape", "items", "verts", "missing", "unit", "sym")
 
     def __init__(self, deg=None, aff=None, deps=frozenset(), shape=None, items=None, verts=None, missing=None, unit=False):
         self.deg, self.aff, self.deps, self.shape = deg, aff, deps, shape
         self.items, self.verts, self.missing = items, verts, dict(missing or {})
         self.unit = unit   # True for values known to lie in [0, 1] (not used for alarms)
+        self.sym = None    # SV: symbolic scalar / unit-vector facts (only filled when Config.unit is on)
 
     def copy(self, **kw):
         o = AV(self.deg, self.aff, self.deps, self.shape, self.items, self.verts, self.missing, self.unit)
+        o.sym = self.sym
         for k, v in kw.items():
             setattr(o, k, v)
         return o
 
     def __repr__(self):
         return f"AV(deg={self.deg}, aff={self.aff}, deps={sorted(self.deps) if self.deps is not None else 'TOP'}, shape={self.shape})"
+
+
+# ------------------------------------------------------------------ symbolic scalars / unit vectors (R-DIM "unit vector" fact)
+class Rat:
+    """rational function num/den over named atoms (Poly / Poly)"""
+    __slots__ = ("num", "den")
+
+    def __init__(self, num, den=None):
+        self.num, self.den = sym._p(num), sym._p(den if den is not None else 1)
+
+    def __add__(self, o):
+        return Rat(self.num * o.den + o.num * self.den, self.den * o.den) if self.den != o.den else Rat(self.num + o.num, self.den)
+
+    def __sub__(self, o):
+        return self + Rat(-o.num, o.den)
+
+    def __mul__(self, o):
+        return Rat(self.num * o.num, self.den * o.den)
+
+    def __truediv__(self, o):
+        return Rat(self.num * o.den, self.den * o.num)
+
+    def __neg__(self):
+        return Rat(-self.num, self.den)
+
+    def same(self, o):
+        return (self.num * o.den) == (o.num * self.den)
+
+    def key(self):
+        return f"({self.num})/({self.den})"
+
+    __repr__ = key
+
+
+class SV:
+    """sx: symbolic value of a scalar; comps: components of an explicit vector; isvec: a 3-vector; unorm: proved to
+    have norm 1; israd: a bare radius parameter; vid: identity of an opaque vector (for its .x/.y/.z atoms);
+    normof: source text of x when the value is norm(x)."""
+    __slots__ = ("sx", "comps", "isvec", "unorm", "israd", "vid", "normof")
+
+    def __init__(self, sx=None, comps=None, isvec=False, unorm=False, israd=False, vid=None, normof=None):
+        self.sx, self.comps, self.isvec, self.unorm, self.israd, self.vid, self.normof = sx, comps, isvec, unorm, israd, vid, normof
+
+
+def join_sv(a, b):
+    if a is None or b is None:
+        return None
+    if a is b:
+        return a
+    sx = a.sx if (a.sx is not None and b.sx is not None and a.sx.same(b.sx)) else None
+    comps = None
+    if a.comps is not None and b.comps is not None and len(a.comps) == len(b.comps) \
+            and all(x is not None and y is not None and x.same(y) for x, y in zip(a.comps, b.comps)):
+        comps = a.comps
+    return SV(sx, comps, a.isvec and b.isvec, a.unorm and b.unorm, a.israd and b.israd, a.vid if a.vid == b.vid else None, None)
+
+
+def subst_square(P, a, Q):
+    """replace every a**2 in P by the polynomial Q"""
+    out = Poly()
+    for k, v in P.t.items():
+        n = k.count(a)
+        rest = tuple(x for x in k if x != a)
+        term = Poly({rest + ((a,) if n % 2 else ()): v})
+        term = Poly({tuple(sorted(kk)): vv for kk, vv in term.t.items()})
+        for _ in range(n // 2):
+            term = term * Q
+        out = out + term
+    return out
 
 
 def lit():
@@ -197,8 +268,10 @@ def join_av(a, b, label_a="", label_b=""):
     items = None
     if a.items is not None and b.items is not None and len(a.items) == len(b.items):
         items = [join_av(x, y, label_a, label_b) for x, y in zip(a.items, b.items)]
-    return AV(join_deg(a.deg, b.deg), join_deg(a.aff, b.aff), deps, join_shape(a.shape, b.shape), items, verts, missing,
-              a.unit and b.unit)
+    out = AV(join_deg(a.deg, b.deg), join_deg(a.aff, b.aff), deps, join_shape(a.shape, b.shape), items, verts, missing,
+             a.unit and b.unit)
+    out.sym = join_sv(a.sym, b.sym)
+    return out
 
 
 def elem_join(container, new):
@@ -231,7 +304,8 @@ PROD = {"cross", "dot", "outer", "vdot"}
 class Config:
     """geo: dotted name -> (deg, aff) of the geometric inputs of the function."""
 
-    def __init__(self, geo=None, repo=None, modname=None, consts=None):
+    def __init__(self, geo=None, repo=None, modname=None, consts=None, unit=False):
+        self.unit = unit   # derive symbolic scalars / unit-vector facts and the radius-times-direction obligations
         self.geo = {k: (Fraction(v[0]), Fraction(v[1])) for k, v in (geo or {}).items()}
         self.repo, self.modname = repo, modname
         self.consts = dict(consts or {})   # parameter name -> python constant (specialises `if p == "literal"` tests)
@@ -255,6 +329,9 @@ class Interp:
         self.fills = []       # (node, rows of the array, trip count of the loop whose index addresses the row)
         self.vertex_stores = []  # (node, AV) coordinates written into a vertex container
         self.loop_len = {}
+        self.unit_obl = {}     # id(node) -> [node, proved on every pass, kind, detail]
+        self.sq, self.trig, self.triples = {}, {}, {}
+        self._vid = 0
         self.params = au.params(fn)
         env = {}
         a = fn.args
@@ -273,7 +350,215 @@ class Interp:
                 env[p] = AV(d, f, frozenset([p]), None)
             else:
                 env[p] = AV(F0, F0, frozenset([p]), ())
+        if self.cfg.unit:
+            for p in self.params:
+                if env[p].sym is not None:
+                    continue
+                env[p] = env[p].copy()
+                if args is None and p in self.cfg.geo:
+                    d, f = self.cfg.geo[p]
+                    env[p].sym = SV(sx=Rat(Poly.atom(p)), israd=True) if f == 0 else SV(isvec=True, vid=p)
+                elif args is None:
+                    env[p].sym = SV(sx=Rat(Poly.atom(p)))
         self.env0 = env
+
+    # ------------------------------------------------------------------ symbolic layer
+    def new_vid(self):
+        self._vid += 1
+        return f"v{self._vid}"
+
+    def reduce(self, P):
+        """normal form modulo sqrt(E)**2 = E, cos**2 = 1 - sin**2, |u| = 1 for proved unit vectors"""
+        for _ in range(12):
+            Q = P
+            for a in sorted(P.atoms()):
+                if P.degree_in(a) < 2:
+                    continue
+                if a in self.sq:
+                    P = subst_square(P, a, self.sq[a])
+                elif a in self.trig:
+                    P = subst_square(P, a, Poly.const(1) - Poly.atom(self.trig[a]) * Poly.atom(self.trig[a]))
+                elif a in self.triples:
+                    x, y = self.triples[a]
+                    P = subst_square(P, a, Poly.const(1) - Poly.atom(x) * Poly.atom(x) - Poly.atom(y) * Poly.atom(y))
+            if P == Q:
+                break
+        return P
+
+    def is_unit(self, comps):
+        if comps is None or any(c is None for c in comps):
+            return False
+        tot = Rat(Poly())
+        for c in comps:
+            tot = tot + c * c
+        return self.reduce(tot.num - tot.den).is_zero() and not tot.den.is_zero()
+
+    def obligation(self, node, ok, kind, detail, tag=""):
+        cur = self.unit_obl.get((id(node), tag))
+        if cur is None:
+            self.unit_obl[(id(node), tag)] = [node, bool(ok), kind, detail]
+        else:
+            cur[1] = cur[1] and bool(ok)
+            if not ok:
+                cur[3] = detail
+
+    def radius_atoms(self):
+        return {p for p, (d, f) in self.cfg.geo.items() if d == 1 and f == 0 and "." not in p}
+
+    def sv(self, e, env):
+        """symbolic value of an expression (None = nothing known); records the unit obligations on the way"""
+        if not self.cfg.unit or e is None:
+            return None
+        m = getattr(self, "sv_" + type(e).__name__, None)
+        if m is None:
+            for c in ast.iter_child_nodes(e):
+                if isinstance(c, ast.expr) and not isinstance(c, (ast.ListComp, ast.GeneratorExp, ast.SetComp, ast.DictComp, ast.Lambda)):
+                    self.sv(c, env)
+            return None
+        return m(e, env)
+
+    def sv_Constant(self, e, env):
+        if isinstance(e.value, (int, float)) and not isinstance(e.value, bool):
+            return SV(sx=Rat(Poly.const(Fraction(e.value).limit_denominator(10**9))))
+        return None
+
+    def sv_Name(self, e, env):
+        if e.id in env:
+            return env[e.id].sym
+        if e.id == "pi":
+            return SV(sx=Rat(Poly.atom("pi")))
+        return None
+
+    def sv_Attribute(self, e, env):
+        c = au.chain(e)
+        if c and c[-1] == "pi" and c[0] in ("np", "numpy", "math"):
+            return SV(sx=Rat(Poly.atom("pi")))
+        base = self.sv(e.value, env)
+        if e.attr == "vertices":
+            return None
+        if base is not None and base.isvec and e.attr in ("x", "y", "z"):
+            i = "xyz".index(e.attr)
+            if base.comps is not None and i < len(base.comps):
+                return SV(sx=base.comps[i])
+            if base.vid is not None:
+                if base.unorm:
+                    self.triples[f"{base.vid}.z"] = (f"{base.vid}.x", f"{base.vid}.y")
+                return SV(sx=Rat(Poly.atom(f"{base.vid}.{e.attr}")))
+        return None
+
+    def sv_Subscript(self, e, env):
+        self.sv(e.slice, env) if not isinstance(e.slice, ast.Slice) else None
+        base = self.sv(e.value, env)
+        if isinstance(e.value, ast.Attribute) and e.value.attr == "vertices":
+            return SV(isvec=True)
+        if base is not None and base.isvec and base.comps is not None and isinstance(au.const(e.slice), int) \
+                and 0 <= au.const(e.slice) < len(base.comps):
+            return SV(sx=base.comps[au.const(e.slice)])
+        return None
+
+    def sv_UnaryOp(self, e, env):
+        v = self.sv(e.operand, env)
+        if v is None or not isinstance(e.op, (ast.USub, ast.UAdd)):
+            return None
+        if isinstance(e.op, ast.UAdd):
+            return v
+        return SV(sx=-v.sx if v.sx is not None else None,
+                  comps=[-c if c is not None else None for c in v.comps] if v.comps is not None else None,
+                  isvec=v.isvec, unorm=v.unorm)
+
+    def sv_BinOp(self, e, env):
+        a, b = self.sv(e.left, env), self.sv(e.right, env)
+        if a is None or b is None:
+            return None
+        op = e.op
+        if isinstance(op, ast.Mult):
+            for r, d, dn in ((a, b, e.right), (b, a, e.left)):
+                if r.israd and d.isvec:
+                    self.obligation(e, d.unorm, "radius-times-direction", au.src(dn))
+            if a.isvec and b.isvec:
+                return None
+            if a.isvec or b.isvec:
+                v, k = (a, b) if a.isvec else (b, a)
+                comps = [c * k.sx if c is not None else None for c in v.comps] if (v.comps is not None and k.sx is not None) else None
+                return SV(comps=comps, isvec=True)
+            if a.sx is not None and b.sx is not None:
+                return SV(sx=a.sx * b.sx)
+            return None
+        if isinstance(op, (ast.Add, ast.Sub)):
+            if a.isvec or b.isvec:
+                comps = None
+                if a.comps is not None and b.comps is not None and len(a.comps) == len(b.comps) \
+                        and all(x is not None for x in a.comps + b.comps):
+                    comps = [(x + y) if isinstance(op, ast.Add) else (x - y) for x, y in zip(a.comps, b.comps)]
+                return SV(comps=comps, isvec=True)
+            if a.sx is not None and b.sx is not None:
+                return SV(sx=(a.sx + b.sx) if isinstance(op, ast.Add) else (a.sx - b.sx))
+            return None
+        if isinstance(op, ast.Div):
+            if a.isvec and not b.isvec:
+                if b.normof is not None and b.normof == au.src(e.left):
+                    return SV(isvec=True, unorm=True, vid=self.new_vid())
+                comps = [c / b.sx if c is not None else None for c in a.comps] if (a.comps is not None and b.sx is not None
+                                                                                   and not b.sx.num.is_zero()) else None
+                return SV(comps=comps, isvec=True)
+            if not a.isvec and not b.isvec and a.sx is not None and b.sx is not None and not b.sx.num.is_zero():
+                return SV(sx=a.sx / b.sx)
+            return None
+        if isinstance(op, ast.Pow) and isinstance(au.const(e.right), int) and 0 <= au.const(e.right) <= 4 and a.sx is not None:
+            out = Rat(Poly.const(1))
+            for _ in range(au.const(e.right)):
+                out = out * a.sx
+            return SV(sx=out)
+        return None
+
+    def sv_Call(self, c, env):
+        tail = au.call_tail(c)
+        args = [self.sv(a.value if isinstance(a, ast.Starred) else a, env) for a in c.args]
+        for k in c.keywords:
+            self.sv(k.value, env)
+        recv_node = c.func.value if isinstance(c.func, ast.Attribute) and not _is_module(c.func.value) else None
+        recv = self.sv(recv_node, env) if recv_node is not None and not (isinstance(recv_node, ast.Name) and recv_node.id not in env) else None
+        first = args[0] if args else recv
+        first_node = c.args[0] if c.args else recv_node
+        if tail == "Vec":
+            if len(args) == 1:
+                return args[0] if (args[0] is not None and args[0].isvec) else SV(isvec=True)
+            if len(args) in (2, 3):
+                comps = [a.sx if a is not None else None for a in args]
+                known = all(x is not None for x in comps)
+                out = SV(comps=comps if known else None, isvec=True, unorm=known and self.is_unit(comps))
+                if known:
+                    for r in sorted(self.radius_atoms()):
+                        if not any(r in x.num.atoms() or r in x.den.atoms() for x in comps):
+                            continue
+                        if any(r in x.den.atoms() or x.num.degree_in(r) > 1 for x in comps):
+                            continue   # not linear in the radius: left to the degree rule
+                        coeff = [Rat(x.num.coeff(r), x.den) for x in comps]
+                        self.obligation(c, self.is_unit(coeff), "radius-coefficient",
+                                        f"d/d{r} = ({', '.join(str(q.num) if q.den == Poly.const(1) else q.key() for q in coeff)})", tag=r)
+                return out
+            return SV(isvec=True)
+        if tail in ("normalized", "normalize"):
+            return SV(isvec=True, unorm=True, vid=self.new_vid())
+        if tail in ROT and args:
+            return SV(isvec=True, unorm=bool(args[0] is not None and args[0].unorm), vid=self.new_vid())
+        if tail == "norm":
+            return SV(normof=au.src(first_node) if first_node is not None else None)
+        if tail in ("sin", "cos") and first is not None and first.sx is not None and len(c.args) == 1:
+            k = first.sx.key()
+            name = f"{tail}⟨{k}⟩"
+            if tail == "cos":
+                self.trig[name] = f"sin⟨{k}⟩"
+            return SV(sx=Rat(Poly.atom(name)))
+        if tail == "sqrt" and first is not None and first.sx is not None and first.sx.den == Poly.const(1) and len(c.args) == 1:
+            name = f"sqrt⟨{first.sx.num}⟩"
+            self.sq[name] = first.sx.num
+            return SV(sx=Rat(Poly.atom(name)))
+        if tail in ("float", "int", "abs") and len(args) == 1 and tail != "abs":
+            return args[0]
+        if tail in ("cross",):
+            return SV(isvec=True)
+        return None
 
     # ------------------------------------------------------------------ driver
     def run(self):
@@ -309,6 +594,7 @@ class Interp:
         if isinstance(st, ast.Return):
             if st.value is not None:
                 self.returns.append((st, self.ev(st.value, env)))
+                self.sv(st.value, env)
             return None
         if isinstance(st, ast.Raise):
             return None
@@ -316,23 +602,34 @@ class Interp:
             if isinstance(st, ast.AnnAssign) and st.value is None:
                 return env
             v = self.ev(st.value, env)
+            if self.cfg.unit:
+                sv_ = self.sv(st.value, env)
+                tg = st.targets[0] if isinstance(st, ast.Assign) else st.target
+                if isinstance(tg, (ast.Tuple, ast.List)) and isinstance(st.value, (ast.Tuple, ast.List)) \
+                        and len(tg.elts) == len(st.value.elts) and v.items is not None:
+                    v = v.copy(items=[it.copy(sym=self.sv(x, env)) for it, x in zip(v.items, st.value.elts)])
+                else:
+                    v = v.copy(sym=sv_)
             for t in (st.targets if isinstance(st, ast.Assign) else [st.target]):
                 self.assign(t, v, st.value, env, st)
             return env
         if isinstance(st, ast.AugAssign):
             cur = self.ev(_load(st.target), env)
             rhs = self.ev(st.value, env)
+            aug_sym = self.sv(ast.BinOp(_load(st.target), st.op, st.value), env) if self.cfg.unit else None
             if isinstance(st.target, ast.Attribute) and st.target.attr == "vertices" and isinstance(st.op, ast.Add):
                 self.vertices_extend(st.target.value, rhs, env, st)
                 return env
             v = self.binop(st.op, cur, rhs, st)
             if cur.shape is not None:
                 v.shape = cur.shape
+            v.sym = aug_sym
             self.assign(st.target, v, None, env, st)
             return env
         if isinstance(st, ast.Expr):
             if isinstance(st.value, ast.Call):
                 self.call_effect(st.value, env, st)
+                self.sv(st.value, env)
             return env
         if isinstance(st, ast.If):
             dec = self.cfg.decide(st.test) if self.depth == 0 else None
@@ -422,14 +719,20 @@ class Interp:
         if is_range:
             if isinstance(t, ast.Name):
                 env[t.id] = scalar0(it.deps)
+                env[t.id].sym = SV(sx=Rat(Poly.atom(t.id))) if self.cfg.unit else None
                 self.loop_len[t.id] = (st, n)
             return
         if is_enum and isinstance(t, ast.Tuple) and len(t.elts) == 2:
             if isinstance(t.elts[0], ast.Name):
                 env[t.elts[0].id] = scalar0()
+                env[t.elts[0].id].sym = SV(sx=Rat(Poly.atom(t.elts[0].id))) if self.cfg.unit else None
                 self.loop_len[t.elts[0].id] = (st, n)
             self.assign(t.elts[1], elem, None, env, st)
             return
+        if self.cfg.unit and isinstance(st.iter, (ast.Tuple, ast.List)) and st.iter.elts:
+            ss = [self.sv(x, env) for x in st.iter.elts]
+            if all(x is not None and x.isvec for x in ss):
+                elem.sym = SV(isvec=True, unorm=all(x.unorm for x in ss), vid=self.new_vid())
         self.assign(t, elem, None, env, st)
 
     def unbind_loop(self, st):
@@ -820,7 +1123,7 @@ class Interp:
                     bound[p] = a
                 for k, v in kws.items():
                     bound[k] = v
-                sub = Interp(callee, Config(self.cfg.geo, self.cfg.repo, r[0].name), args=bound, depth=self.depth + 1).run()
+                sub = Interp(callee, Config(self.cfg.geo, self.cfg.repo, r[0].name, unit=self.cfg.unit), args=bound, depth=self.depth + 1).run()
                 out = None
                 for _, v in sub.returns:
                     out = v if out is None else join_av(out, v)
